@@ -1198,6 +1198,26 @@ impl Recorder {
                 Err(_) => continue,
             };
             self.emit(json!({"ev": "new", "cfg": j}));
+            // (every other word: with a learned choice in the store - the look-up of learned choices walks the suffixes too)
+            if n % 2 == 0 {
+                let mut last = Obs::default();
+                for ch in "amar".chars() {
+                    let code = self.keys.code_for_char(ch).unwrap();
+                    last = ctx.key(code, 0, 0);
+                    let mut e = json!({"ev": "key", "code": code, "mod": 0, "sel": 0});
+                    for (k, v) in Self::ret_fields(&last).as_object().unwrap() {
+                        e[k] = v.clone();
+                    }
+                    self.emit(e);
+                }
+                if last.kind == "full" && last.cands.len() > 1 {
+                    let o = ctx.commit(1);
+                    self.emit(json!({"ev": "commit", "idx": 1, "ongoing": o.ongoing, "panic": o.panic.clone().unwrap_or_default()}));
+                } else {
+                    let o = ctx.finish();
+                    self.emit(json!({"ev": "finish", "ongoing": o.ongoing, "panic": o.panic.clone().unwrap_or_default()}));
+                }
+            }
             let mut text = String::from(["a", "k", "sesh"][n % 3]);
             while text.len() < 45 {
                 text.push_str(key);
